@@ -410,7 +410,7 @@ func (g *Gen) zero(t types.Type) Val {
 		return g.mkStruct(t, fs)
 	case *types.Array:
 		s := g.sortOf(t)
-		return Val{S: fmt.Sprintf("((as const %s) %s)", s, g.zero(u.Elem()).S), Sort: s, GT: t}
+		return Val{S: fmt.Sprintf("((as const %s) %s)", s, constValue(g.zero(u.Elem()).S)), Sort: s, GT: t}
 	}
 	return Val{S: "nilptr", Sort: "Ptr", GT: t}
 }
@@ -728,3 +728,9 @@ func (g *Gen) ensureKey(key, elemSort string) {
 
 var _ = sort.Strings
 var _ = token.ADD
+
+// constValue expands the nil abbreviations (cvc5 wants a literal value inside a constant array).
+func constValue(s string) string {
+	s = strings.ReplaceAll(s, "niliface", "(mk-iface 0 (mk-ptr 0 root))")
+	return strings.ReplaceAll(s, "nilptr", "(mk-ptr 0 root)")
+}
